@@ -16,12 +16,17 @@ CLAIM = {
 
 def classify_known(f):
     """narrow signature of the recorded defect KF-short-literal-oob"""
-    if f["switch"] != "entry/Valid":
+    if f["switch"] not in ("entry/Valid", "entry/Unmarshal"):
         return None
     try:
         doc = json.loads(f["input"]) if f["input"].startswith('"') else f["input"]
     except Exception:
         doc = f["input"]
+    if f["switch"] == "entry/Unmarshal":
+        # only a proper prefix of a literal (with blanks around it): the 4-byte load past the end decides it
+        t = doc.strip(" \t\r\n")
+        if not (t and any(lit.startswith(t) and lit != t for lit in ("true", "false", "null"))):
+            return None
     if len(doc.encode("utf8", "surrogatepass")) < 4 and any(ch in doc for ch in "tnf"):
         return "KF-short-literal-oob"
     return None
